@@ -299,6 +299,54 @@ pub fn run(rc: &RunCtx) -> Outcome {
     let out = run_corpus(rc, &cfg, &layouts, "b", &[], None);
     let mut o = summarize(rc, &cfg, &layouts, out);
     shrink_violations(rc, &cfg, &mut o);
+    // C06: a declared default that is not a value of the (arbitrary-int) base type cannot be carried
+    // "exactly" by DEFAULT / Default / new(): such a declaration must not be accepted at all
+    if prop == "C06" {
+        let ro = RenderOpts::default();
+        let mut items: Vec<(usize, String)> = Vec::new();
+        let mut ls: Vec<Layout> = Vec::new();
+        for b in [1u32, 2, 7, 9, 14, 15, 17, 24, 31, 33, 48, 63, 65, 100, 127] {
+            let st = storage_bits(b);
+            for (k, v) in [1u128 << b, mask(st), (1u128 << b) | 1].iter().enumerate() {
+                for colon in [false, true] {
+                    let l = Layout {
+                        default: Some(DefaultDecl { value: *v, named_const: k == 2 && colon, radix: 16 }),
+                        default_colon: colon,
+                        ..corpus::lay(b, vec![corpus::fld("f", 0, 1, FieldTy::Bool, Access::RW)])
+                    };
+                    items.push((ls.len(), render_layout(&l, &ro)));
+                    ls.push(l);
+                }
+            }
+        }
+        let mut accepted = 0u64;
+        for mp in ["dev", "release"] {
+            let v = crate::vprops::check_decls(rc, "baddefault", &items, mp);
+            for (i, errs) in v {
+                if errs.is_empty() {
+                    // confirm in isolation
+                    if crate::vprops::check_isolated(rc, &items[i].1, None, mp).is_empty() {
+                        accepted += 1;
+                        if accepted <= 2 {
+                            o.violations.push(Violation {
+                                sig: format!("default-outside-base-accepted/{}", base_class(ls[i].base_bits)),
+                                summary: format!(
+                                    "C06: the declared default {:#x} is not a u{} value, yet the declaration compiles (macro {}): DEFAULT cannot have exactly that raw value\n{}",
+                                    ls[i].default_value(),
+                                    ls[i].base_bits,
+                                    mp,
+                                    items[i].1
+                                ),
+                                replay: json!({"kind": "verdict", "source": items[i].1, "expect_accept": false, "macro_profile": mp, "layout": ls[i]}),
+                            });
+                        }
+                    }
+                }
+            }
+        }
+        o.coverage["out_of_range_default_declarations_checked"] = json!(items.len() * 2);
+        o.coverage["out_of_range_default_declarations_accepted"] = json!(accepted);
+    }
     if prop == "C11" {
         o.coverage["overhang_probes_generated"] = json!(probes_total);
         o.coverage["overhang_probes_accepted_by_the_macro_and_run"] = json!(probes_accepted);
